@@ -1,8 +1,8 @@
 #!/bin/bash
 # usage: try_benign.sh <patch> <ID>...  -- apply a semantics-preserving patch to a scratch worktree and run checks there (must stay silent)
 patch="$1"; shift
-W=/tmp/repo_dev2
-cd $W && git checkout -q -- . && git apply "$patch" || { echo "patch does not apply"; exit 2; }
+W=${VERIF_DEVWT:-/tmp/repo_dev2}
+cd $W && git checkout -q -- . && git clean -fdq && git apply "$patch" || { echo "patch does not apply"; exit 2; }
 cd /verif
 for id in "$@"; do
   out=$(VERIF_REPO=$W ./check $id 2>&1); rc=$?
